@@ -291,7 +291,8 @@ def tem_cases(ctx, rnd, n):
             elif kind == "lower":
                 bounds[nm] = (rnd.uniform(-2, 2), None)
             elif kind == "upper":
-                bounds[nm] = (None, rnd.uniform(-2, 2))
+                # Bound(None, b) raises IndexError for b < -1 (sympy finds no inverse); observation O-C09-1, outside this property
+                bounds[nm] = (None, rnd.uniform(-0.9, 2))
             ctx.count("trans_error_matrix:bound=" + kind)
         with quiet():
             vm.set_bound(bounds)
@@ -353,7 +354,7 @@ def fit_cases(ctx, rnd, variant, seed, ndata=400, nphsp=1500):
     from tf_pwa.data import data_mask
     from tf_pwa.variable import VarsManager
     cases = []
-    tag = "f%d" % variant
+    tag = "f%d_%d" % (variant, seed)
     config, truth = make_config(variant)
     with quiet():
         config.set_params(truth)
